@@ -44,6 +44,13 @@ KF_C08_id(ev) == "none"
 (* the second abilint round is a fixpoint.                                                                                     *)
 KF_C03_void(ev) == ev.hasVoid /\ ev.sameLinesModuloIds /\ ev.h2 = ev.h3
 
+(* C03: clang (limited debug info) describes some classes as declarations that nevertheless carry member functions; abidw writes   *)
+(* <class-decl is-declaration-only='yes'> with <member-function> children, the ABIXML reader does not attach member functions to a  *)
+(* declaration-only class, and abilint writes the class without them.  Classified as this finding only if the document has such      *)
+(* elements, the two documents have the same lines (type ids masked) once exactly those elements are removed from the first, and the  *)
+(* second abilint round is a fixpoint.                                                                                               *)
+KF_C03_declonly(ev) == ev.declOnlyMemFnLines > 0 /\ ev.sameLinesModuloIdsAndDeclOnlyMemFns /\ ev.h2 = ev.h3
+
 (* C13: same root cause as C05-same-size-change-in-union: the default mode filters the whole interface, the leaf mode reports *)
 (* the leaf type change.                                                                                                       *)
 KF_C13_union(ev) == ev.inUnion /\ (\E i \in 1..Len(ev.kinds) : ev.kinds[i] = "member-type") /\ ev.exitDefault = 0 /\ ev.exitLeaf = 4
